@@ -7,6 +7,7 @@ import (
 	"path/filepath"
 	"sort"
 	"strings"
+	"verifsim/simdisk"
 
 	"verifsim/ref"
 )
@@ -237,7 +238,13 @@ func par1Cycle(r *Run, hostile bool) {
 
 	dc := t.Bool(1, 2, "doublecheck")
 	needWork := tr.UnusableData > 0
-	rep := r.Repair1(w, index, dc, nil)
+	var repPlan []simdisk.Fault
+	if prop == "C02" && needWork && t.Bool(1, 4, "repair-write-fault") {
+		kind := []simdisk.Kind{simdisk.WriteENOSPC, simdisk.WriteTorn, simdisk.WriteTruncErr}[t.Draw(3, "fault-kind")]
+		repPlan = []simdisk.Fault{{NthWrite: 1 + t.Draw(3, "fault-write"), Kind: kind, KeepPermille: t.Draw(1001, "keep"), ErrStyle: t.Draw(5, "error-style")}}
+		r.Probe("repair-with-write-fault")
+	}
+	rep := r.Repair1(w, index, dc, repPlan)
 	r.noPanic(rep)
 	outcome := "repaired"
 	if rep.Err != nil {
